@@ -269,7 +269,7 @@ def run(ctx):
     forbidden_gate(ctx, ["Base", "C13"])
     ok, why = check_props(ctx, "C13/Props.v", ["C13/Harness.vo", "C13/Proofs.vo"])
     rng = ctx.rng
-    n = 600 if ctx.tier == "quick" else 8000
+    n = 600 if ctx.tier == "quick" else 5000
     cases = [gen_case(rng, ctx.tier) for _ in range(n)]
     tmpdir = tempfile.mkdtemp(prefix="verif-c13-")
     try:
